@@ -2,6 +2,7 @@ import LcmProofs.SolveFull
 import LcmProofs.SpecRefine
 import LcmProps.C06
 import LcmProps.Examples
+import LcmProofs.UtilityBody
 namespace Lcm
 
 /-! # C01 — `solve()` returns the exact backward-induction (Bellman) solution on the grid
@@ -201,5 +202,55 @@ example : ((Ex.consModel.states ++ Ex.consModel.choices).map (·.1)).Nodup := by
     (pickAt (groups Ex.consModel).dS [] ++ pickAt (cStateGrids (groups Ex.consModel)) [2])
   == ((solve Ex.consModel Ex.consParams).getD 1 default).get [2]
 #guard filterNames Ex.consModel == []
+
+/-! ## an infeasible choice never determines a value
+
+The utility of the implementation may be `+inf`, `-inf` or `nan` at a choice that a constraint excludes (a division whose
+divisor vanishes exactly there); the model renders this as "utility undefined" (`Expr.div`, `none`). The statement of C01
+is that such values are never seen: -/
+
+/-- **two specifications whose utilities agree wherever all constraints hold - whatever they return, or fail to return,
+elsewhere - have the same solution, every period** -/
+theorem C01_infeasible_choice_never_determines_a_value {m m' : Model} {P : Params}
+    (h : UtilityAgreesOnFeasible m m' P) : solve m' P true = solve m P true :=
+  solve_eq_of_utility_agrees_on_feasible h
+
+/-- the same for the objective of one state-choice combination: the feasibility flags coincide and so do the values of
+the feasible combinations (what the masked maximum of `solve` and the arg-max chain of `simulate` read) -/
+theorem C01_objective_agrees_on_feasible {m m' : Model} {P : Params} (h : UtilityAgreesOnFeasible m m' P)
+    (g : Groups) (t : Nat) (next : Option (Tensor Ext × List (List (Name × Rat)))) (env0 : Env) :
+    feasibleOf (uAndF m' P g t next env0) = feasibleOf (uAndF m P g t next env0) ∧
+      (feasibleOf (uAndF m P g t next env0) = true → uAndF m' P g t next env0 = uAndF m P g t next env0) :=
+  h.uAndF g t next env0
+
+/-- instance: the body of `utility` rewritten by any `F` such that the new utility evaluates like the old one wherever all
+constraints hold (hypotheses: no function takes the *value* of utility as an argument; no filter, constraint or transition
+is called `utility`) -/
+theorem C01_rewritten_utility_same_solution (m : Model) (F : Expr → Expr) (P : Params)
+    (hno : ∀ f ∈ m.functions, "utility" ∉ f.args)
+    (hnames : ∀ fi ∈ functionInfo m, (fi.isConstraint = true ∨ fi.isFilter = true ∨ fi.isNext = true) → fi.name ≠ "utility")
+    (hutil : ∀ env, allTrue m P env (constraintNames m) = some true → utilOf (withUtility m F) P env = utilOf m P env) :
+    solve (withUtility m F) P true = solve m P true :=
+  solve_eq_of_utility_agrees_on_feasible (utilityAgreesOnFeasible_with m F P hno hnames hutil)
+
+namespace Ex
+/-- `consModel` with a utility that also lists `w` -/
+def consModelW : Model :=
+  { consModel with functions := consModel.functions.map fun f =>
+      if f.name == "utility" then { f with args := ["c", "d", "w", "kappa"] } else f }
+/-- adds `1 / (min(w - c, 0) + 1) - 1`: zero wherever `c ≤ w`, undefined (division by zero) where `c = w + 1` -/
+def divTerm (body : Expr) : Expr :=
+  .add body (.sub (.div (.num 1) (.add (.min (.sub (.var "w") (.var "c")) (.num 0)) (.num 1))) (.num 1))
+end Ex
+
+-- the structural hypotheses hold on the example; the rewritten utility is undefined at an infeasible choice and the
+-- solutions coincide (a test of the statement on one specification, not a proof of `hutil` for it)
+example : ∀ f ∈ Ex.consModelW.functions, "utility" ∉ f.args := by decide +kernel
+#guard (functionInfo Ex.consModelW).all fun fi => !(fi.isConstraint || fi.isFilter || fi.isNext) || fi.name != "utility"
+#guard utilOf (withUtility Ex.consModelW Ex.divTerm) Ex.consParams (toEnv [("w", 0), ("c", 1), ("d", 0)]) == none
+#guard utilOf Ex.consModelW Ex.consParams (toEnv [("w", 0), ("c", 1), ("d", 0)]) == some 2
+#guard utilOf (withUtility Ex.consModelW Ex.divTerm) Ex.consParams (toEnv [("w", 1), ("c", 1), ("d", 1)]) == some (9/4)
+#guard Ex.flat (solve (withUtility Ex.consModelW Ex.divTerm) Ex.consParams) == Ex.flat (solve Ex.consModelW Ex.consParams)
+#guard Ex.flat (solve Ex.consModelW Ex.consParams) == Ex.flat (solve Ex.consModel Ex.consParams)
 
 end Lcm
